@@ -650,20 +650,6 @@ func (c *c20CaseRun) submit(s c20Submit, label string) string {
 		infoC = "(Some " + cApp("mkInfo", cStr(info.OperatorAddress), cStr(info.TaskResponseHash), c20RespOf(info.TaskResponse).coq(),
 			cOpt(info.BlsSignature != nil, cStr(hex.EncodeToString(info.BlsSignature))), cStr(info.TaskContractAddress), c20Z(info.TaskId), cStr(info.Stage)) + ")"
 	}
-	if res == c20Ok && info != nil && info.Stage == "1" {
-		// predicate of the recorded finding: an accepted phase-one result from an operator outside the task's opt-in snapshot
-		for _, t := range c.prev.Tasks {
-			if t.Addr == info.TaskContractAddress && t.ID == info.TaskId {
-				in := false
-				for _, o := range t.OptIn {
-					in = in || o == info.OperatorAddress
-				}
-				if !in {
-					c.addTag("kf-C20-signer-not-opted-in")
-				}
-			}
-		}
-	}
 	c.record(cApp("OSubmit", cStr(s.From), cBool(fromValid), infoC, cBool(pkOK), cBool(blsOK)),
 		fmt.Sprintf("submit %s stage=%q id=%d task=%s bls=%v", label, s.Stage, s.ID, s.Task, blsOK), res)
 	return res
@@ -1063,7 +1049,7 @@ func (h *c20H) randomSubmit(c *c20CaseRun) {
 		task, id = h.taskAddr[r.Intn(len(h.taskAddr))].String(), uint64(r.Intn(3))
 	}
 	if ok && r.Intn(25) != 0 {
-		// mostly operators of the task's opt-in snapshot (others are the recorded signer-not-opted-in finding)
+		// mostly operators of the task's opt-in snapshot (all others are rejected)
 		for _, t := range c.prev.Tasks {
 			if t.Addr == task && t.ID == id && len(t.OptIn) > 0 {
 				want := t.OptIn[r.Intn(len(t.OptIn))]
@@ -1321,6 +1307,17 @@ func (h *c20H) structuredCase(c *c20CaseRun) {
 	if r.Intn(4) == 0 {
 		h.randomOptOut(c) // before the snapshot: the record stays, so the operator is still listed
 	}
+	if nAvs == 2 && r.Intn(2) == 0 {
+		// one task per AVS with identical periods: both statistical periods end in the same epoch
+		a := c20TaskArgs{Name: "t", Hash: []byte{1, 7}, Resp: uint64(h.pick(0, 1)), Stat: uint64(h.pick(0, 1)), Chal: uint64(h.pick(0, 1, 2)), Thr: 50}
+		for _, av := range c.prev.Avs {
+			for ti, ta := range h.taskAddr {
+				if ta.String() == av.Task {
+					c.createTask(ti, h.owners[0], a)
+				}
+			}
+		}
+	}
 	nTasks := 1 + r.Intn(2)
 	for k := 0; k < nTasks; k++ {
 		h.randomTask(c)
@@ -1385,7 +1382,8 @@ func (h *c20H) directedEmptySig(alone bool) {
 	c.finish("regress-C20-empty-signature")
 }
 
-// a registered operator that never opted in submits a result: it ends up in both lists
+// regression scenario of the repaired signer-not-opted-in defect: a registered operator with a BLS key that is not in the
+// task's opt-in snapshot submits a result; it must be rejected (it used to end up in both lists)
 func (h *c20H) directedNotOptedIn() {
 	c := h.newCase()
 	c.register(0, h.owners[0], h.baseParams(0))
@@ -1402,7 +1400,7 @@ func (h *c20H) directedNotOptedIn() {
 	for i := 0; i < 3; i++ {
 		c.advance(61 * time.Second)
 	}
-	c.finish("kf-C20-signer-not-opted-in")
+	c.finish("regress-C20-signer-not-opted-in")
 }
 
 // full happy path with every window boundary and a challenge
@@ -1458,6 +1456,35 @@ func (h *c20H) directedDeregister(unbond uint64, advances int) {
 	c.finish()
 }
 
+// several AVSs with different stakes whose tasks end their statistical period in the SAME epoch: every group of the
+// epoch hook must be computed with its own AVS (total power, per-operator powers)
+func (h *c20H) directedTwoAVS(resp, stat uint64) {
+	c := h.newCase()
+	for ai := 0; ai < 3; ai++ {
+		c.register(ai, h.owners[0], h.baseParams(ai))
+	}
+	for oi := 0; oi < 4; oi++ {
+		h.validBLS(c, oi)
+	}
+	// different operator sets -> different AVS USD values
+	for _, pr := range [][2]int{{0, 0}, {0, 1}, {0, 2}, {1, 1}, {1, 3}, {2, 2}} {
+		c.opt(pr[0], pr[1], true)
+	}
+	c.advance(61 * time.Second)
+	for ti := 0; ti < 3; ti++ {
+		c.createTask(ti, h.owners[0], c20TaskArgs{Name: "t", Hash: []byte{1}, Resp: resp, Stat: stat, Chal: 1, Thr: 50})
+	}
+	for _, pr := range [][2]int{{0, 0}, {0, 2}, {1, 1}, {1, 3}, {2, 2}} {
+		op := h.ops[pr[1]].String()
+		_, sig := h.sigFor(pr[1], 1, 100)
+		c.submit(c20Submit{From: op, Op: op, Task: h.taskAddr[pr[0]].String(), ID: 1, Stage: "1", Sig: sig}, fmt.Sprintf("op%d", pr[1]))
+	}
+	for i := 0; i < int(resp+stat)+3; i++ {
+		c.advance(61 * time.Second)
+	}
+	c.finish()
+}
+
 func runC20(a *Args) error {
 	env := NewEnv(EnvCfg{Operators: []OperatorCfg{{Deposit: 101}, {Deposit: 100}, {Deposit: 150}, {Deposit: 120}, {Deposit: 0}}, ExtraAccs: 3})
 	w := NewCaseWriter(a.Out)
@@ -1502,6 +1529,9 @@ func runC20(a *Args) error {
 			ndir++
 		}
 	}
+	h.directedTwoAVS(0, 0)
+	h.directedTwoAVS(1, 1)
+	ndir += 2
 	n := a.N - ndir
 	for i := 0; i < n; i++ {
 		c := h.newCase()
